@@ -217,6 +217,22 @@ def _final_state_contract(front, with_solve):
         opt.undo()
         for i, var in enumerate(prob.variables):
             c.ensure_eq('C14.undo.restores_variables', c.val(var.value), x_start[i])
+        # optimise / undo / optimise: a second run of the same optimiser object (returning whatever vector, the same one included)
+        # again leaves the lens at the vector it returns
+        om.optimize = _scipy_stub(c, log)
+        try:
+            if front == 'differential_evolution':
+                res2 = opt.optimize(maxiter=5, disp=False, workers=1)
+            elif front == 'differential_evolution_mp':
+                res2 = opt.optimize(maxiter=5, disp=False, workers=-1)
+            elif front == 'least_squares':
+                res2 = opt.optimize(maxiter=5)
+            else:
+                res2 = opt.optimize(maxiter=5, disp=False)
+        finally:
+            om.optimize = real_opt
+        for i, var in enumerate(prob.variables):
+            c.ensure_eq('C14.final_state.second_run_after_undo_ends_at_its_returned_vector', c.val(var.value), c.val(res2.x[i]))
     return fs
 
 
